@@ -65,7 +65,7 @@ theorem retry_done (pos : Nat) (m : Int) (rl : Bool) (h a : List Cond) (inner : 
               obtain ⟨rfl, _⟩ := hh; exact hd
             · simp only [hd] at hh
               generalize (({ (retryOnFailure pos m rl a res1.withFailure r1).2 with
-                  last := (retryOnFailure pos m rl a res1.withFailure r1).1.outcome }).emit "rp.onRetryScheduled" pos).trigger "rp.onRetryScheduled" = X at hh
+                  last := (retryOnFailure pos m rl a res1.withFailure r1).1.outcome }).emitLast "rp.onRetryScheduled" pos).trigger "rp.onRetryScheduled" = X at hh
               by_cases hx : X.isCanc = true
               · simp only [hx, if_true, Option.some.injEq, Prod.mk.injEq] at hh
                 obtain ⟨rfl, _⟩ := hh; exact Run.cancelRes_done _
@@ -411,7 +411,7 @@ theorem retry_congr (pos : Nat) (m : Int) (rl : Bool) (hd a : List Cond) (inner 
                 outcome_eq e1v e1e
               rw [ho]
               generalize (({ (retryOnFailure pos m rl a q.withFailure r1).2 with
-                  last := (retryOnFailure pos m rl a q.withFailure r1).1.outcome }).emit "rp.onRetryScheduled" pos).trigger "rp.onRetryScheduled" = X
+                  last := (retryOnFailure pos m rl a q.withFailure r1).1.outcome }).emitLast "rp.onRetryScheduled" pos).trigger "rp.onRetryScheduled" = X
               by_cases hx : X.isCanc = true
               · simp only [hx, if_true]; exact Eqv.refl _
               · simp only [hx]; exact ih _
